@@ -135,6 +135,44 @@ fn operand_order_family() -> Vec<Prog> {
   out
 }
 
+/// Inlining with colliding names: a small callee `g(a, b, c)` (inlined) called from a caller that
+/// is not inlined itself (recursive, big) and whose own parameters are also called a, b, c, with
+/// EVERY argument tuple over {a, b, c} (all 27, so every permutation and every repetition), for
+/// functions and for methods (`other.m(this)`); plus the two-parameter version with let-bound and
+/// literal arguments. Parameter substitution must be simultaneous, not sequential.
+fn inline_permutation_family() -> Vec<Prog> {
+  let mut out = vec![];
+  let names = ["a", "b", "c"];
+  for kind in ["function", "method"] {
+    let mut calls = String::new();
+    let mut n_calls = 0;
+    for x in names {
+      for y in names {
+        for z in names {
+          let c = if kind == "function" { format!("Main.g({x}, {y}, {z})") } else { format!("{x}.g({y}, {z})") };
+          calls.push_str(&format!("    Process.println(Str.fromInt({}));\n", if kind == "function" { c } else { format!("{c}") }));
+          n_calls += 1;
+        }
+      }
+    }
+    let _ = n_calls;
+    let text = if kind == "function" {
+      format!(
+        "class Main {{\n  function g(a: int, b: int, c: int): int = a * 100 + b * 10 + c\n  function caller(a: int, b: int, c: int, n: int): int = {{\n{calls}    if n <= 0 {{ 0 }} else {{ Main.g(c, a, b) + Main.caller(b, c, a, n - 1) }}\n  }}\n  function main(): unit = {{\n    Process.println(Str.fromInt(Main.caller(1, 2, 3, 2)));\n    Process.println(Str.fromInt(Main.caller(\"4\".toInt(), \"5\".toInt(), \"6\".toInt(), \"1\".toInt())))\n  }}\n}}\n"
+      )
+    } else {
+      format!(
+        "class V(val v: int) {{\n  method g(b: V, c: V): int = this.v * 100 + b.v * 10 + c.v\n  method caller(b: V, c: V, n: int): int = {{\n    let a = this;\n{calls}    if n <= 0 {{ 0 }} else {{ c.g(this, b) + b.caller(c, this, n - 1) }}\n  }}\n}}\nclass Main {{\n  function main(): unit = {{\n    Process.println(Str.fromInt(V.init(1).caller(V.init(2), V.init(3), 2)));\n    Process.println(Str.fromInt(V.init(\"4\".toInt()).caller(V.init(\"5\".toInt()), V.init(\"6\".toInt()), \"1\".toInt())))\n  }}\n}}\n"
+      )
+    };
+    out.push(Prog { family: "inline-permutation", shape: format!("three parameters, all 27 argument tuples, {kind}"), name: format!("inline permutation {kind}"), text });
+  }
+  // two parameters: swapped, repeated, literal and let-bound arguments, nested calls
+  let two = "class Main {\n  function sub(a: int, b: int): int = a - b\n  function pair(a: int, b: int): int = a * 10 + b\n  function caller(a: int, b: int, n: int): int = {\n    Process.println(Str.fromInt(Main.sub(a, b)));\n    Process.println(Str.fromInt(Main.sub(b, a)));\n    Process.println(Str.fromInt(Main.sub(b, b)));\n    Process.println(Str.fromInt(Main.sub(a, a)));\n    Process.println(Str.fromInt(Main.sub(1, a)));\n    Process.println(Str.fromInt(Main.sub(b, 1)));\n    let x = a + 1;\n    let y = b * 2;\n    Process.println(Str.fromInt(Main.sub(y, x)));\n    Process.println(Str.fromInt(Main.pair(Main.sub(b, a), Main.sub(a, b))));\n    Process.println(Str.fromInt(Main.pair(b, Main.pair(b, a))));\n    if n <= 0 { 0 } else { Main.sub(b, a) + Main.caller(b, a, n - 1) }\n  }\n  function main(): unit = {\n    Process.println(Str.fromInt(Main.caller(10, 3, 2)));\n    Process.println(Str.fromInt(Main.caller(\"7\".toInt(), \"20\".toInt(), \"1\".toInt())))\n  }\n}\n";
+  out.push(Prog { family: "inline-permutation", shape: "two parameters: swapped, repeated, literal, let-bound, nested".into(), name: "inline permutation two parameters".into(), text: two.to_string() });
+  out
+}
+
 fn loop_family(thorough: bool) -> Vec<Prog> {
   let guards: Vec<(&str, &str)> = vec![
     ("i<B", "I < B"), ("i<=B", "I <= B"), ("i>B", "I > B"), ("i>=B", "I >= B"), ("i!=B", "I != B"),
@@ -404,6 +442,7 @@ fn main() {
   }
   let mut progs = loop_family(thorough);
   progs.extend(operand_order_family());
+  progs.extend(inline_permutation_family());
   let fams = progfam::all_families(thorough);
   if thorough {
     progs.extend(fams);
